@@ -47,9 +47,15 @@ func CheckDataRefs(reg template.Registry) (err error) {
 type templateChecker struct {
 	registry template.Registry
 	params   []string
-	letVars  []string
-	forVars  []string
-	usedKeys []string
+	vars     []*scopedVar // {let} and loop variables in scope, innermost last.
+	usedKeys []string     // params that are used.
+}
+
+// scopedVar is a variable introduced by {let} or a loop.
+type scopedVar struct {
+	name  string
+	isLet bool
+	used  bool
 }
 
 func newTemplateChecker(reg template.Registry, tpl template.Template) *templateChecker {
@@ -57,21 +63,35 @@ func newTemplateChecker(reg template.Registry, tpl template.Template) *templateC
 	for _, param := range tpl.Doc.Params {
 		paramNames = append(paramNames, param.Name)
 	}
-	return &templateChecker{reg, paramNames, nil, nil, nil}
+	return &templateChecker{reg, paramNames, nil, nil}
 }
 
 func (tc *templateChecker) checkTemplate(node ast.Node) {
 	switch node := node.(type) {
 	case *ast.LetValueNode:
+		// the variable is in scope only after its own value.
 		tc.checkLet(node.Name)
-		tc.letVars = append(tc.letVars, node.Name)
+		tc.recurse(node)
+		tc.vars = append(tc.vars, &scopedVar{node.Name, true, false})
+		return
 	case *ast.LetContentNode:
 		tc.checkLet(node.Name)
-		tc.letVars = append(tc.letVars, node.Name)
+		tc.recurse(node)
+		tc.vars = append(tc.vars, &scopedVar{node.Name, true, false})
+		return
 	case *ast.CallNode:
 		tc.checkCall(node)
 	case *ast.ForNode:
-		tc.forVars = append(tc.forVars, node.Var)
+		// the loop variable is in scope in the loop body only.
+		tc.checkTemplate(node.List)
+		var mark = len(tc.vars)
+		tc.vars = append(tc.vars, &scopedVar{node.Var, false, false})
+		tc.checkTemplate(node.Body)
+		tc.popVars(mark)
+		if node.IfEmpty != nil {
+			tc.checkTemplate(node.IfEmpty)
+		}
+		return
 	case *ast.DataRefNode:
 		tc.visitKey(node.Key)
 	case *ast.HeaderParamNode:
@@ -156,79 +176,53 @@ func (tc *templateChecker) checkCall(node *ast.CallNode) {
 	}
 }
 
+// recurse checks the children of the given node.  Variables they introduce go
+// out of scope at the end of it.
 func (tc *templateChecker) recurse(parent ast.ParentNode) {
-	var initialForVars = len(tc.forVars)
-	var initialLetVars = len(tc.letVars)
-	var initialUsedKeys = len(tc.usedKeys)
+	var mark = len(tc.vars)
 	for _, child := range parent.Children() {
 		tc.checkTemplate(child)
 	}
-	tc.forVars = tc.forVars[:initialForVars]
+	tc.popVars(mark)
+}
 
-	// quick return if there were no {let}s
-	if initialLetVars == len(tc.letVars) {
-		return
-	}
-
-	// "pop" the {let} variables, as well as their usages.
-	// (this is necessary to handle shadowing of @params by {let} vars)
-	var letVarsGoingOutOfScope = tc.letVars[initialLetVars:]
-	var usedKeysToKeep, usedLets []string
-	for _, key := range tc.usedKeys[initialUsedKeys:] {
-		if contains(letVarsGoingOutOfScope, key) {
-			usedLets = append(usedLets, key)
-		} else {
-			usedKeysToKeep = append(usedKeysToKeep, key)
-		}
-	}
-
-	// check that any let variables leaving scope have been used
+// popVars takes the variables introduced since mark out of scope, and checks
+// that the {let} variables among them have been used.
+func (tc *templateChecker) popVars(mark int) {
 	var unusedLetVarNames []string
-	for _, letVar := range letVarsGoingOutOfScope {
-		if !contains(usedLets, letVar) {
-			unusedLetVarNames = append(unusedLetVarNames, letVar)
+	for _, v := range tc.vars[mark:] {
+		if v.isLet && !v.used {
+			unusedLetVarNames = append(unusedLetVarNames, v.name)
 		}
 	}
 	if len(unusedLetVarNames) > 0 {
 		panic(fmt.Errorf("{let} variables %q are not used.", unusedLetVarNames))
 	}
-
-	tc.usedKeys = append(tc.usedKeys[:initialUsedKeys], usedKeysToKeep...)
-	tc.letVars = tc.letVars[:initialLetVars]
+	tc.vars = tc.vars[:mark]
 }
 
+// visitKey resolves the key to the innermost variable of that name in scope,
+// or else to a @param, and records the use.
 func (tc *templateChecker) visitKey(key string) {
-	// record that this key was used in the template.
-	tc.usedKeys = append(tc.usedKeys, key)
-
-	// check that the key was provided by a @param or {let}
-	if !tc.checkKey(key) {
-		panic(fmt.Errorf("data ref %q not found. params: %v, let variables: %v",
-			key, tc.params, tc.letVars))
-	}
-}
-
-// checkKey returns true if the given key exists as a param or {let} variable.
-func (tc *templateChecker) checkKey(key string) bool {
 	if key == "ij" {
-		return true
+		return
 	}
-	for _, param := range tc.params {
-		if param == key {
-			return true
+	for i := len(tc.vars) - 1; i >= 0; i-- {
+		if tc.vars[i].name == key {
+			tc.vars[i].used = true
+			return
 		}
 	}
-	for _, varName := range tc.letVars {
-		if varName == key {
-			return true
-		}
+	if contains(tc.params, key) {
+		tc.usedKeys = append(tc.usedKeys, key)
+		return
 	}
-	for _, varName := range tc.forVars {
-		if varName == key {
-			return true
-		}
+	var letVars []string
+	for _, v := range tc.vars {
+		letVars = append(letVars, v.name)
 	}
-	return false
+	panic(fmt.Errorf("data ref %q not found. params: %v, let variables: %v",
+		key, tc.params, letVars))
 }
 
 func contains(slice []string, item string) bool {
